@@ -206,6 +206,33 @@ def unresolved(run):
                 if (".".join(full[:k]), full[k]) in ex.TOO_NEW:
                     bad.append({"file": rel, "line": line, "expr": expr, "why": "newer than the declared minimum version"})
                     break
+    # names bound only under an optional-dependency guard but used by code that runs without the dependency
+    trees = {}
+    for root, dirs, fs in os.walk(pkg):
+        for f in fs:
+            if f.endswith(".py"):
+                rel_ = os.path.relpath(os.path.join(root, f), fw.REPO)
+                try:
+                    trees[rel_] = ast.parse(open(os.path.join(root, f)).read())
+                except Exception:
+                    pass
+    only = {r: ex.optional_only_names(t) for r, t in trees.items()}
+    mod_of = {r[:-3].replace(os.sep, ".").replace(".__init__", ""): r for r in trees}
+    for r, t in trees.items():
+        alias_internal = {}
+        for n_ in ast.walk(t):
+            if isinstance(n_, ast.Import):
+                for a in n_.names:
+                    if a.name in mod_of and a.asname:
+                        alias_internal[a.asname] = mod_of[a.name]
+            elif isinstance(n_, ast.ImportFrom) and n_.module:
+                for a in n_.names:
+                    if n_.module + "." + a.name in mod_of:
+                        alias_internal[a.asname or a.name] = mod_of[n_.module + "." + a.name]
+        for name, fn, line in ex.optional_leaks(r, t, only[r], only, alias_internal):
+            bad.append({"file": r, "line": line, "expr": name,
+                        "why": "is bound only inside an `if ...__available__:` block (it does not exist without the optional "
+                               "dependency) but is used by `%s`, which runs without it: NameError/AttributeError at call time" % fn})
     kwv = _fresh_eval(sorted(ext), [], kwcalls=sorted({(tuple(f), k) for _, _, f, k in pending_kw}))
     for rel, line, full, kw in pending_kw:
         why = kwv.get(".".join(full) + "(" + kw + "=)")
